@@ -78,6 +78,9 @@ func vpPassFor(user, passA, passB string) string {
 
 // c = configuration case (0..5) * 3 + flow (0 = ASCII login, 1 = PAP login, 2 = anything else)
 func vpH_C10_authn__18(c int) {
+	// byte windows of different size may become symbolic when call outcomes are merged: for this
+	// harness the paths saved outweigh the harder queries by a factor of four
+	vpEngineOption("merge_lossy", 1)
 	flow := c % 3
 	if flow == 2 && c/3 >= vpBound("c10other", 1) {
 		return // the "anything else" flow is configuration independent: run it for the first cases only
